@@ -322,7 +322,8 @@ int cmdRandom(int argc, char** argv) {
 				}
 				JArr m;
 				LL next = 0;
-				for (LL i = 0; i < nv; i++) m.add((rng() % 3) == 0 ? LL(-1) : next++);
+				// (removed entries are any negative number: -1, the "-2 - target" and "-(old) - 1" markers of merge maps)
+				for (LL i = 0; i < nv; i++) m.add((rng() % 3) == 0 ? ((rng() % 2) ? LL(-1) : -2 - rnd(0, 40)) : next++);
 				calls.push_back("{\"fn\":\"maptris\",\"T\":" + T.done() + ",\"m\":" + m.done() + "}");
 				break;
 			}
@@ -334,7 +335,7 @@ int cmdRandom(int argc, char** argv) {
 				LL ms = rnd(0, 10);
 				JArr m;
 				LL next = 0;
-				for (LL i = 0; i < ms; i++) m.add((rng() % 3) == 0 ? LL(-1) : next++);
+				for (LL i = 0; i < ms; i++) m.add((rng() % 3) == 0 ? ((rng() % 2) ? LL(-1) : -2 - rnd(0, 40)) : next++);
 				// offset chosen so that shifted keys cannot collide with mapped ones or go negative
 				calls.push_back("{\"fn\":\"mapkeys\",\"keys\":" + keys.done() + ",\"m\":" + m.done() + ",\"off\":0}");
 				break;
